@@ -443,5 +443,5 @@ def run(tier="quick"):
                        "equal times)"]
     for m in models:
         rep.configs.append(m.config)
-        rules(rep, m)
+        common.run_rules(rep, m, rules)
     return rep.finish()
